@@ -4,6 +4,7 @@
 # SPDX-License-Identifier: LicenseRef-Nordic-5-Clause
 #
 """SUIT envelope integrated payloads representation."""
+import errno
 import pathlib
 import string
 
@@ -20,9 +21,12 @@ class SuitIntegratedPayloadMap(SuitKeyValueUnnamed):
         """Check if the string, although it consists of hex digits only, is the path of an existing file."""
         try:
             return isinstance(value, str) and len(value) > 0 and pathlib.Path(value).is_file()
-        except OSError:
-            # e.g. a long hex string is not a usable file name
-            return False
+        except OSError as e:
+            if e.errno == errno.ENAMETOOLONG:
+                # a long hex string is not a usable file name
+                return False
+            # the file may exist but cannot be examined: do not silently take its name as the payload
+            raise
 
     @classmethod
     def from_obj(cls, obj: dict) -> SuitKeyValueUnnamed:
